@@ -52,7 +52,7 @@ META = dict(
                  '4 non-corner entries masked, 9 pairs for (3,3),(2,2,2), shapes (3,4),(2,2,3),(6,) added (<= 12 '
                  'entries); rescaling / residual laws on every case with <= 9 entries; symbolic mask level on <= 5 '
                  'entries; Gibbs up to 6 free entries'),
-    outside=['Anscombe_Poisson_residual (fractional powers)', 'float round-off', 'model <= 0 on an unmasked entry '
+    outside=['numerical values of the fractional powers in Anscombe_Poisson_residual (POW uninterpreted: formula, sign and masking are checked by congruence)', 'float round-off', 'model <= 0 on an unmasked entry '
              '(numpy.ma.log domain masking; only the warning text differs)', 'sum(data)=0 over the joint entries '
              '(theta=0: everything masked)', 'the text of the diagnostic warnings of ll_per_bin',
              'folded_ancestral / folded_major attributes (not present on dadi.Spectrum)',
@@ -132,6 +132,23 @@ class _Ma(shims.MaShim):
             return self._dom(x, lambda v: v <= 0, lambda v: _fresh('LOG', v), LOGCALLS, 0)
         return np.ma.log(x)
 
+    def power(self, a, b, third=None):
+        """numpy.ma.power on Sym data: elementwise POW (uninterpreted for non-integer exponents); masked entries stay
+        masked and keep a harmless value."""
+        if not shims._has_sym(np.ma.getdata(a)):
+            return np.ma.power(a, b, third)
+        a = np.ma.asanyarray(a)
+        data, m = a.data, np.ma.getmaskarray(a).copy()
+        out = np.empty(data.shape, dtype=object)
+        for idx in np.ndindex(*data.shape):
+            out[idx] = 1 if m[idx] else S.Sym.lift(data[idx]) ** b
+        res = np.ma.masked_array(out, mask=m)
+        if type(a) is not np.ma.MaskedArray:
+            res = res.view(type(a))
+            res._update_from(a)
+            res.mask = m
+        return res
+
     def sqrt(self, x):
         if shims._has_sym(np.ma.getdata(x)):
             # value under the mask is unspecified; 1 keeps the subsequent data-level division defined
@@ -177,6 +194,34 @@ def _logical_and(a, b):
                 out[idx] = x & y
         else:
             out[idx] = bool(x) and bool(y)
+    if isinstance(a, np.ma.MaskedArray) or isinstance(b, np.ma.MaskedArray):
+        mk = np.ma.mask_or(np.ma.getmaskarray(a), np.ma.getmaskarray(b))
+        return np.ma.masked_array(out, mask=mk)
+    return out
+
+
+def _logical_or(a, b):
+    """numpy.logical_or without forking on symbolic operands."""
+    ad, bd = np.ma.getdata(a), np.ma.getdata(b)
+    ad, bd = np.broadcast_arrays(np.asarray(ad), np.asarray(bd))
+    if ad.dtype != object and bd.dtype != object:
+        return np.logical_or(a, b)
+    out = np.empty(ad.shape, dtype=object)
+    for idx in np.ndindex(*ad.shape):
+        x, y = ad[idx], bd[idx]
+        if isinstance(x, S.SymBool) or isinstance(y, S.SymBool):
+            if not isinstance(x, S.SymBool) and x:
+                out[idx] = True
+            elif not isinstance(y, S.SymBool) and y:
+                out[idx] = True
+            elif not isinstance(x, S.SymBool):
+                out[idx] = y
+            elif not isinstance(y, S.SymBool):
+                out[idx] = x
+            else:
+                out[idx] = x | y
+        else:
+            out[idx] = bool(x) or bool(y)
     if isinstance(a, np.ma.MaskedArray) or isinstance(b, np.ma.MaskedArray):
         mk = np.ma.mask_or(np.ma.getmaskarray(a), np.ma.getmaskarray(b))
         return np.ma.masked_array(out, mask=mk)
@@ -251,7 +296,7 @@ def _setup():
     from dadi import Inference, Numerics, Spectrum_mod
     logging.disable(logging.CRITICAL)
     for mod in (Inference, Numerics, Spectrum_mod):
-        sh = shims.install_numpy(mod, overrides={'logical_and': _logical_and} if mod is Inference else None)
+        sh = shims.install_numpy(mod, overrides={'logical_and': _logical_and, 'logical_or': _logical_or} if mod is Inference else None)
         object.__setattr__(sh, 'ma', _Ma(np.ma))
     shims.patch_spectrum_dtype(dadi.Spectrum)
     shims.set_attr(Inference, 'gammaln', _gammaln)
@@ -657,6 +702,37 @@ def body_resid(P, lvl_mode):
     return _with_ack(body)
 
 
+def body_anscombe(P, use_mask):
+    """Anscombe residual: documented transformation, sign (positive when the model is high) and masking.  Fractional
+    powers are uninterpreted (POW); code and oracle build the same POW terms, so equality is decided by congruence."""
+    def body(env):
+        from dadi import Inference
+        c = make_inputs(env, P)
+        for idx in np.ndindex(*c.shape):
+            if not c.dm[idx]:
+                env.assume(c.d[idx] > 0)     # zeros in the data are masked by the function when a mask level is given
+        lvl = env.const(0) if use_mask else None
+        with np.errstate(all='ignore'):
+            r = Inference.Anscombe_Poisson_residual(c.M, c.D, mask=lvl) if use_mask else \
+                Inference.Anscombe_Poisson_residual(c.M, c.D)
+        rm = np.ma.getmaskarray(r)
+        rd = _val(r)
+        env.holds('shape', rm.shape == c.shape)
+        for idx in np.ndindex(*c.shape):
+            if c.joint[idx]:
+                env.holds('masked where model or data is masked%s' % list(idx), bool(rm[idx]))
+                continue
+            mkd = rm[idx]
+            env.holds('not masked on a joint entry with positive model and data%s' % list(idx),
+                      (not bool(mkd)) if not isinstance(mkd, S.SymBool) else _not(mkd))
+            m_, d_ = c.mf[idx], c.d[idx]
+            dt_ = d_ ** (2. / 3) - d_ ** (-1. / 3) / 9
+            mt_ = m_ ** (2. / 3) - m_ ** (-1. / 3) / 9
+            want = -(1.5 * (dt_ - mt_) / m_ ** (1. / 6))
+            _eq(env, 'Anscombe residual, positive when the model is high%s' % list(idx), rd[idx], want)
+    return _with_ack(body)
+
+
 def body_gibbs(P):
     """ll_multinom(model, data) <= ll_multinom(k*data, data) for every model > 0 (same masks), data > 0."""
     def body(env):
@@ -884,6 +960,14 @@ def units(tier, seed):
             us.append(H.Unit('hist-ll-%s-%s' % ('x'.join(map(str, shape)), '_'.join(''.join(map(str, d_)) for d_ in order)),
                              body_hist(Ps), params=dict(shape=list(shape), dms=order), setup=_setup,
                              min_obligations=3 * nJ, expect_paths=1, timeout_s=300, maxpaths=400))
+    # --- Anscombe residual (sign / masking; fractional powers uninterpreted)
+    for P in [dict(shape=[4], mm=[1, 0, 0, 1], dm=[1, 0, 0, 1], fold='none'),
+              dict(shape=[5], mm=[1, 0, 1, 0, 1], dm=[1, 0, 0, 0, 1], fold='none'),
+              dict(shape=[2, 3], mm=[1, 0, 0, 0, 0, 1], dm=[1, 0, 0, 1, 0, 1], fold='none')]:
+        nJ = int((~joint_of(P)).sum())
+        for um in (False, True):
+            us.append(H.Unit('anscombe-%s-%s' % (_name(P), 'masklevel0' if um else 'nomask'), body_anscombe(P, um),
+                             params=dict(P, mask=um), setup=_setup, min_obligations=2 * nJ, timeout_s=300, maxpaths=400))
     # --- folded model against unfolded data is rejected
     P = dict(shape=[4], mm=[1, 0, 0, 1], dm=[1, 0, 0, 1], fold='none')
     us.append(H.Unit('fold-mismatch-rejected', body_foldmismatch(P), params=P, setup=_setup, min_obligations=2))
